@@ -20,7 +20,7 @@ fn is_word_char(c: char) -> bool {
 }
 
 /// Does `token` occur in `text` delimited by non-word characters?
-fn has_token(text: &str, token: &str) -> bool {
+pub fn has_token(text: &str, token: &str) -> bool {
     if token.is_empty() {
         return false;
     }
